@@ -329,9 +329,42 @@ def r_order(c):
             "inserted into bindings")
 
 
+def r_alignment(c):
+    """NumPy broadcasting aligns shapes at their TRAILING end.  Where the front end
+    writes an operand's batch axes as a slice of a shared pool of index letters, the
+    slice is a suffix of the pool (pool[k:]), never a prefix (pool[:k]): a prefix
+    pairs the batch axes of operands of different rank from the wrong end"""
+    m = c.model
+    fd = m.func("pytato.array.matmul")
+    where = m.loc("pytato.array", fd)
+    pools = find(fd, "$pool = $names[:max($a.ndim - 2, $b.ndim - 2)]")
+    if len(pools) != 1:
+        raise AnalysisError("anchor vanished: pool of stacking indices in matmul")
+    pool = pools[0]["$pool"]
+    n = 0
+    for st in ast.walk(fd):
+        if not (isinstance(st, ast.Assign) and isinstance(st.value, ast.BinOp)
+                and isinstance(st.value.op, ast.Add)):
+            continue
+        left = st.value.left
+        if isinstance(left, ast.Subscript) and ast.unparse(left.value) == pool \
+                and isinstance(left.slice, ast.Slice):
+            n += 1
+            sl = left.slice
+            c.check(sl.upper is None and sl.lower is not None and sl.step is None,
+                    "R01-TABLES", "array.matmul",
+                    f"batch-axes-aligned-at-the-trailing-end:{m.frag(st.targets[0], 20)}",
+                    m.loc("pytato.array", st),
+                    f"`{m.frag(left, 50)}` is not a suffix `{pool}[k:]` of the pool of "
+                    "stacking indices: operands of different rank are paired from the "
+                    "leading end, (2,2,3,4) @ (2,4,2) multiplies the wrong matrices")
+    if n < 2:
+        raise AnalysisError(f"only {n} operand subscripts built from the pool (floor 2)")
+
+
 SPEC = Spec(
     prop="C01",
-    rules=[r_dispatch, r_tables, r_ctor_state, r_order],
+    rules=[r_dispatch, r_tables, r_ctor_state, r_order, r_alignment],
     floors={"R01-DISPATCH": 30, "R01-TABLES": 20, "R01-CTOR-STATE": 45, "R01-ORDER": 12},
     explanation=(
         "Decides three structural clauses of C01, not the value clause. "
